@@ -152,6 +152,59 @@ example :
               ([1, 3, 4, 5, 6, 9], [1, 3, 4, 5, 6, 9]), ([1, 3, 4, 5, 6, 9], [1, 3, 4, 5, 6, 9]),
               ([4, 5, 6, 9], [4, 5, 6, 9])] := by decide
 
+/-- "reads racing with flushes": a `get` that misses the cache, split into its three phases as the code
+runs them – staging snapshot (`get_entry`), THEN store scan (`fetch_entry`), then overlay of that snapshot
+and install.  `s0` is the state in which snapshot and scan are taken (any reachable state in which the set is
+not cached), `s1` the state at install time after ANY run of background events in between (commits,
+`FlushUpTo` notifications, evictions – in particular commit AND flush of a batch that was staged at `s0`).
+The set returned – and the set cached for all later reads – is exactly the true set; in particular it
+contains the effect of every batch staged before the read, whether its commit and flush fell before, inside
+or after the read. -/
+theorem set_get_snapshot_before_scan (thr : Nat) (db0 : List Nat) (s0 s1 : SetCache.State)
+    (hr : SetCache.Reach (SetCache.init SetCache.repaired thr db0) s0) (hmiss : s0.entry = none)
+    (hbg : SetCache.BgSteps s0 s1) :
+    (∀ x, x ∈ (SetCache.getInstall s1 (SetCache.stagingSnapshot s0) s0.db).2 ↔ x ∈ s1.truth) ∧
+    (∀ x, x ∈ (SetCache.get (SetCache.getInstall s1 (SetCache.stagingSnapshot s0) s0.db).1).2 ↔ x ∈ s1.truth) := by
+  obtain ⟨I, hc⟩ := SetCache.inv_reach hr
+  obtain ⟨h1, h2⟩ := SetCache.get_across_background I hc hmiss hbg
+  refine ⟨h1, ?_⟩
+  have hcfg : (SetCache.getInstall s1 (SetCache.stagingSnapshot s0) s0.db).1.cfg = SetCache.repaired := by
+    have hc1 := (SetCache.bgSteps_inv hbg I hc).2.1
+    unfold SetCache.getInstall
+    simp only []
+    split <;> (split <;> simp_all)
+  have htr : (SetCache.getInstall s1 (SetCache.stagingSnapshot s0) s0.db).1.truth = s1.truth := by
+    unfold SetCache.getInstall
+    simp only []
+    split <;> (split <;> simp_all)
+  intro x
+  rw [← htr]
+  exact (SetCache.get_correct h2 hcfg).1 x
+
+/-- non-vacuity: store {1,2}; a batch inserting 9 and removing 1 is staged and submitted; the read takes its
+snapshot and scans the store; the batch is committed and flushed (log emptied); the read then installs. -/
+example :
+    (do
+      let (s, _) ← SetCache.run (SetCache.init SetCache.repaired 1024 [1, 2]) [.begin, .ins 9, .rem 1, .submit]
+      let (s1, _) ← SetCache.run s [.commit, .notify]
+      let (s2, out) := SetCache.getInstall s1 (SetCache.stagingSnapshot s) s.db
+      pure (out, (SetCache.get s2).2, s1.db, SetCache.stagingSnapshot s1, s1.truth)
+        : Option (List Nat × List Nat × List Nat × SetCache.Snapshot × List Nat))
+      = some ([2, 9], [2, 9], [2, 9], ⟨[], []⟩, [2, 9]) := by decide
+
+/-- the ORDER matters: taking the staging snapshot AFTER the store scan (instead of before) loses a batch
+whose commit and flush both fall between the scan and the snapshot: the scan read the store without the batch
+and the late snapshot no longer holds its operations; the wrong set {1,2} is returned and cached although 9
+was inserted (and is in the store).  Same history as the example above. -/
+theorem set_snapshot_after_scan_loses_batch :
+    (do
+      let (s, _) ← SetCache.run (SetCache.init SetCache.repaired 1024 [1, 2]) [.begin, .ins 9, .submit]
+      let scanned := s.db
+      let (s1, _) ← SetCache.run s [.commit, .notify]
+      let (s2, out) := SetCache.getInstall s1 (SetCache.stagingSnapshot s1) scanned
+      pure (out, (SetCache.get s2).2, s2.truth) : Option (List Nat × List Nat × List Nat))
+      = some ([1, 2], [1, 2], [1, 2, 9]) := by decide
+
 /-- HISTORICAL witness (fixed in /repo 73760b5).  "reads racing with flushes … parallel readers/writers":
 lifting the atomicity of the set cache's operations FAILED for the code before the fix (finding F50, reproduced
 on the real code with two threads; the two-thread scenario runs clean on every check since the fix).
